@@ -18,6 +18,8 @@ func priceTemplates(date string) []jr.Dir {
 		jr.P(date, "USD", "0.9", "CHF"),
 		jr.P(date, "USD", "0.95", "CHF"),
 		jr.P(date, "CHF", "1.25", "USD"),
+		jr.P(date, "CHF", "1.3", "USD"),
+		jr.P(date, "USD", "0.9000004", "CHF"),
 		jr.P(date, "AAPL", "100", "USD"),
 		jr.P(date, "AAPL", "33.33333333", "USD"),
 		jr.P(date, "EUR", "1.08", "CHF"),
@@ -33,6 +35,7 @@ func valuedTrxTemplates(date string) []jr.Dir {
 		jr.T(date, "salary chf", jr.B(accSalary, accChecking, "100", "CHF")),
 		jr.T(date, "eur", jr.B(accOpening, accBaenk, "33.33333333", "EUR")),
 		jr.T(date, "bonus usd", jr.B(accIncBank, accChecking, "50", "USD")),
+		jr.T(date, "inner node", jr.B(accOpening, accBank, "3", "USD")),
 	}
 }
 
